@@ -1,7 +1,7 @@
 (** Correspondence and property oracles for Spec.Step / Spec.Walk
     (C04-C08, C18): what the generated cases_step_*.v / cases_walk_*.v files
     evaluate.  Each property compares only the observables it is about. *)
-From Sheens Require Export Corr.Base Spec.Contain Model.Action Spec.WalkSpec.
+From Sheens Require Export Corr.Base Spec.Contain Model.Action Spec.WalkSpec Spec.GuardLog.
 
 Inductive go_err : Type :=
 | GNone | GNotCompiled | GUnknownNode | GUncompiled | GBadBranching | GTooMany | GOther.
@@ -131,11 +131,71 @@ Definition glog_violations (cases : list scase) : list nat :=
 Definition glog_multi (cases : list scase) : nat :=
   count_true (fun c => match sc_glog c with Some (_ :: _ :: _) => true | _ => false end) cases.
 
+(** Replay under the implementation's own candidate order.  The calls the
+    implementation made tell in which order the matcher listed the candidates
+    of each branch (as far as the guard got); [go_order] completes that to an
+    order of all the model's candidates (multiset-wise: a pattern can yield
+    the same binding set twice) and [step_logged] (Spec/GuardLog.v: the model
+    step under a candidate order, with the guard calls it makes) is run under
+    it.  The log it produces must be the implementation's log, call by call,
+    and its result the implementation's result - for every step, also those
+    whose choice among several acceptable candidates depends on the order
+    (nothing is skipped any more).  If the implementation presented something
+    that is no candidate of the branch, or a candidate more often than the
+    pattern yields it, the model keeps its own order and the logs differ. *)
+Definition ob_eqb (a b : option bindings) : bool := opt_eqb bindings_eqb a b.
+
+Fixpoint take_one (c : option bindings) (l : list (option bindings)) : option (list (option bindings)) :=
+  match l with
+  | [] => None
+  | x :: r => if ob_eqb c x then Some r
+              else match take_one c r with Some r' => Some (x :: r') | None => None end
+  end.
+Fixpoint take_out (pr l : list (option bindings)) : option (list (option bindings)) :=
+  match pr with
+  | [] => Some l
+  | c :: r => match take_one c l with Some l' => take_out r l' | None => None end
+  end.
+Definition presented (log : list gcall) (i : nat) : list (option bindings) :=
+  map gl_cand (filter (fun g => Nat.eqb (gl_idx g) i) log).
+Definition go_order (log : list gcall) : cand_oracle :=
+  fun i cands =>
+    let pr := presented log i in
+    match take_out pr cands with
+    | Some rest => pr ++ rest
+    | None => cands
+    end.
+
+Definition call_eqb (m : mcall) (g : gcall) : bool :=
+  Nat.eqb (mc_idx m) (gl_idx g) && ob_eqb (mc_cand m) (gl_cand g)
+  && guard_says_eqb (mc_says m) (says_of (gl_v g)).
+Fixpoint calls_eqb (ms : list mcall) (gs : list gcall) : bool :=
+  match ms, gs with
+  | [], [] => true
+  | m :: ms', g :: gs' => call_eqb m g && calls_eqb ms' gs'
+  | _, _ => false
+  end.
+
+Definition replay_agrees (proj : stride -> stride -> bool) (c : scase) : bool :=
+  match sc_glog c with
+  | None => true
+  | Some log =>
+      let '(o, mlog) := step_logged act run_act (go_order log) (sc_spec c) (sc_st c) (sc_pending c) in
+      calls_eqb mlog log
+      && match sc_go c with
+         | GStep sd e => opt_eqb proj (so_stride o) sd && go_err_eqb (err_class (so_err o)) e
+         | _ => false
+         end
+  end.
+Definition replay_ambiguous (cases : list scase) : nat :=
+  count_true (fun c => so_ambiguous (model_step c)
+                       && match sc_glog c with Some _ => true | None => false end) cases.
+
 (** C04: To (node, bindings), consumed flag, error class *)
 Definition c04_proj (a b : stride) : bool :=
   opt_eqb state_eqb (sd_to a) (sd_to b) && opt_eqb json_eqb (sd_consumed a) (sd_consumed b).
 Definition c04_violations (cases : list scase) : list nat :=
-  bad_indexes (fun c => negb (step_agrees c04_proj c) || negb (glog_ok c)) 0 cases.
+  bad_indexes (fun c => negb (step_agrees c04_proj c) || negb (glog_ok c) || negb (replay_agrees c04_proj c)) 0 cases.
 Definition c04_nontrivial (cases : list scase) : nat :=
   count_true (fun c => match so_stride (model_step c) with
                        | Some sd => match sd_to sd with Some _ => true | None => false end
